@@ -608,10 +608,11 @@ func ruleNoCrossTalk(c *Ctx, dv *dev) {
 			c.Bad("R16.5", key, c.P.Pos(nd.Pos()), "reference-typed field is not initialised in NewDevice")
 			continue
 		}
+		v = throughCtor(c.P, v) // a constructor helper returning a value it makes itself is as good as make() in place
 		if isFresh(v, map[ssa.Value]bool{}) {
 			// reference-typed elements put into the fresh container must be fresh as well
 			stale := ""
-			for _, b := range nd.Blocks {
+			for _, b := range v.Parent().Blocks {
 				for _, in := range b.Instrs {
 					if mu, ok := in.(*ssa.MapUpdate); ok && mu.Map == v && isRefType(mu.Value.Type()) && !isFresh(mu.Value, map[ssa.Value]bool{}) {
 						stale = c.P.Pos(mu.Pos())
@@ -692,6 +693,34 @@ func globalRootVal(v ssa.Value) *ssa.Global {
 		}
 	}
 	return nil
+}
+
+// throughCtor: if v is the result of a call to a repository function with a single normal return, the returned value
+// (inside the callee), followed through up to three such helpers; otherwise v.
+func throughCtor(p *Program, v ssa.Value) ssa.Value {
+	for i := 0; i < 3; i++ {
+		call, ok := v.(*ssa.Call)
+		if !ok {
+			return v
+		}
+		callee := call.Call.StaticCallee()
+		if callee == nil || !p.OwnedFunc(callee) || len(callee.Blocks) == 0 || callee.Signature.Results().Len() != 1 {
+			return v
+		}
+		var ret *ssa.Return
+		n := 0
+		for _, b := range callee.Blocks {
+			if r, ok := b.Instrs[len(b.Instrs)-1].(*ssa.Return); ok && b != callee.Recover {
+				ret = r
+				n++
+			}
+		}
+		if n != 1 {
+			return v
+		}
+		v = ret.Results[0]
+	}
+	return v
 }
 
 func isFresh(v ssa.Value, seen map[ssa.Value]bool) bool {
